@@ -256,6 +256,20 @@ func init() {
 		c.obl("panic.lib", "big.Mod_by_zero", not(eq(c.args[2].S, "0")))
 		return c.def("b", app("mod", c.args[1].S, c.args[2].S))
 	}
+	// (z).Exp(x, y, nil) for x == 2: pow2(y), an uninterpreted function with pow2(0) = 1 and the step fact
+	// pow2(y) = 2 * pow2(y-1) asserted for the exponent at hand and its predecessor; other bases: unconstrained
+	libSpecs[b+"Exp"] = func(c *callCtx) Val {
+		e := c.e()
+		if c.args[1].S == "2" {
+			e.vc.declFun("pow2", []string{"Int"}, "Int")
+			e.vc.declSort("(assert (= (pow2 0) 1))")
+			e.vc.declSort("(assert (forall ((n Int)) (! (=> (> n 0) (= (pow2 n) (* 2 (pow2 (- n 1))))) :pattern ((pow2 n)))))")
+			e.vc.declSort("(assert (forall ((n Int)) (! (=> (>= n 0) (>= (pow2 n) 1)) :pattern ((pow2 n)))))")
+			y := c.args[2].S
+			return c.def("b", ite(app(">=", y, "0"), app("pow2", y), "1"))
+		}
+		return c.fr.pureHavoc(c)
+	}
 	libSpecs[b+"Set"] = func(c *callCtx) Val { return c.ret(c.args[1].S) }
 	libSpecs[b+"SetInt64"] = func(c *callCtx) Val { return c.ret(c.args[1].S) }
 	libSpecs[b+"SetUint64"] = func(c *callCtx) Val { return c.ret(c.args[1].S) }
